@@ -26,6 +26,7 @@ META = {
         "the callback task that runs it; set_result(id, r) carries the value produced for the message with that id. "
         "distinct_nontrivial = distinct terminal per-message logs."
         " Failing dependencies: a dependency of message 0 raises (always / only at its first resolution) after a suspension point while message 1 enters processing; whatever is resolved for message 0 before, after or again still observes message 0, and an error result is stored under its id."
+        " Four messages with at most three in processing (contexts of finished executions must not reach later ones)."
     ),
     "assumptions": [
         "the message a piece of dependency code belongs to is identified by the asyncio task running it (the callback task)",
@@ -146,6 +147,14 @@ def scenarios(tier: str) -> List[Dict[str, Any]]:
                 amsgs = [dict(m, ack="async", gates=["ack"]) for m in msgs]
                 out.append({"A": 3, "P": 1, "N": None, "stream": "finite", "stop": False, "level": 0, "deps": g, "msgs": amsgs,
                             "ack_type": "when_received", "mws": [{"hooks": {"pre_execute": "gated", "post_execute": "gated"}}]})
+    # four messages, at most three in processing: contexts handed from finished executions to later ones
+    for order in (("g", "p"), ("p", "g")):
+        for k in ((("plain", False), ("agen", False)) if tier == "quick" else KINDS):
+            g4 = {"roots": list(order), "task_ctx": True,
+                  "nodes": {"g": {"style": "aplain", "children": [], "gate": True, "cache": True}, "p": _node(k, [], True)}}
+            g4["nodes"]["p"]["gate"] = False
+            msgs = [{"task": "dep", "body": "immediate", "value": f"R{i}", "labels": {"who": f"w{i}"}} for i in range(4)]
+            out.append({"A": 3, "P": 1, "N": None, "stream": "finite", "stop": False, "level": 0, "deps": g4, "msgs": msgs})
     # a dependency of message 0 fails (always / only the first time) after a suspension point while message 1
     # enters processing: whatever is resolved for message 0 before, after or instead still sees message 0
     for order in (("p", "f"), ("f", "p")):
